@@ -160,7 +160,12 @@ Claims(K, q) ==
 
 ASSUME Stratified(KBase({}, 1, FALSE, 100))
 
-Subsets == IF Sample = 0 THEN SUBSET (1..N) ELSE RandomSubset(Sample, SUBSET (1..N)) \cup {{}, 1..N}
+\* stored subsets that are always explored: the witnesses of recorded findings and repairs
+Witness == CASE FamName = "rw"    -> {{2, 8}, {1, 3, 4, 5, 6}, {2, 3, 5, 6}}
+             [] FamName = "alias" -> {{1, 2, 3, 4}, {1, 2, 5, 6}}
+             [] FamName = "rec"   -> {{1, 2, 3}, {1, 3, 6, 9}}
+             [] OTHER -> {}
+Subsets == IF Sample = 0 THEN SUBSET (1..N) ELSE RandomSubset(Sample, SUBSET (1..N)) \cup {{}, 1..N} \cup Witness
 Init == S \in Subsets /\ oi \in 1..NumOrds /\ strict \in (IF Legacy THEN {FALSE} ELSE StrictSet) /\ done = FALSE /\ bad = {}
 
 Next ==
